@@ -89,6 +89,11 @@ def make_case(rng: random.Random) -> Dict[str, Any]:
 
         victim = sorted(hists)[-1]
         hists[victim] = families.same_second_fee_lots(rng, victim)
+    if rng.random() < 0.3:
+        # two assets whose names differ in letter case only (WBTC / wBTC): different assets, each with its own sheet
+        from rpv.cli_core import rename_asset
+
+        hists = rename_asset(hists, sorted(hists)[1], sorted(hists)[0].lower())
     other = cli_histories(rng, 2, profile)
     return {"hists": hists, "other": other, "method": rng.choice(METHODS), "perm_seed": rng.randint(0, 10**9)}
 
@@ -142,6 +147,16 @@ def _one(ctx: Any, case: Dict[str, Any], name: str, relations: Tuple[int, ...] =
                 diff = _first_difference(reference, _content(other)) if other.exit == 0 else {"problem": f"exit {other.exit}"}
                 if diff:
                     ctx.violation("determinism.hash-seed-changes-report", dict(diff, hashseed=seed), dict(case, relation=1))
+            # the same with the run restricted to one asset (-a), for each asset in turn
+            for asset in sorted(hists):
+                alone = [ws.run("us", args + ["-a", asset], audit=False, hashseed=seed) for seed in ("0", "1", "2")]
+                ctx.count("executions", 3)
+                contents = [_content(r) if r.exit == 0 else {"problem": f"exit {r.exit}"} for r in alone]
+                for seed, content in zip(("1", "2"), contents[1:]):
+                    diff = _first_difference(contents[0], content) if "problem" not in content and "problem" not in contents[0] else ({"problem": "a run restricted with -a fails"} if content != contents[0] else None)
+                    if diff:
+                        ctx.violation("determinism.hash-seed-changes-report", dict(diff, hashseed=seed, only_asset=asset), dict(case, relation=1))
+                        break
             ctx.count("relation_1")
 
         if 2 in relations:
@@ -156,6 +171,9 @@ def _one(ctx: Any, case: Dict[str, Any], name: str, relations: Tuple[int, ...] =
                     _scribble(out, random.Random(case.get("perm_seed", 0)))
                     ctx.count("relation_2_with_edited_earlier_reports")
                 junk = {"notes.txt": b"keep me\n", "fifo_rp2_full_report.ods.bak": b"\x00\x01junk", "zz.ods": b"not a spreadsheet"}
+                # lock files an office suite leaves next to documents that are (or were, when it crashed) open
+                for report_name in REPORTS:
+                    junk[f".~lock.{case['method']}_{report_name}.ods#"] = b",user,host,01.10.2026 10:00,file:///home/user/.config/libreoffice/4;"
                 for fname, data in junk.items():
                     with open(os.path.join(out, fname), "wb") as handle:
                         handle.write(data)
